@@ -74,7 +74,17 @@ def obligations(prog):
         if p not in f.param_index:
             raise AnalysisBroken("R-OBL: parameter %s of %s (tables/obligations.json) vanished" % (p, fn))
         offs = cur.get((fn, p, k), {})
-        ok = (o in offs) or (None in offs) or (o is None and len(offs) > 0)
+
+        def sat(kk):
+            oo = cur.get((fn, p, kk), {})
+            return (o in oo) or (None in oo) or (o is None and len(oo) > 0)
+        ok = sat(k)
+        # secp256k1_scalar_set_b32_seckey(&s, b) is by definition set_b32(&s, b, &overflow) followed by the overflow and the
+        # zero test; either spelling discharges the other's obligations
+        if not ok and k in ("sc_checked", "sc_zero_test") and sat("seckey"):
+            ok, offs = True, cur.get((fn, p, "seckey"), {})
+        if not ok and k == "seckey" and sat("sc_checked") and sat("sc_zero_test"):
+            ok, offs = True, cur.get((fn, p, "sc_checked"), {})
         oid = "R-OBL:%s:%s@%s:%s" % (fn, p, "*" if o is None else o, k)
         where = "%s[%s]" % (p, "*" if o is None else o)
         text = "data of %s must be consumed by %s" % (where, KIND_TEXT[k])
